@@ -69,7 +69,7 @@ def main():
                  'under VERIF_WALL_BUDGET (default 900 s) with each slice '
                  'capped at VERIF_SLICE_CAP (default 600 CPU-s); raise both '
                  'to go deeper. known_findings.json: F4 (C11) is the only '
-                 'open finding; 19 defects were repaired by fix: commits in '
+                 'open finding; 18 defects were repaired by fix: commits in '
                  '/repo. seeded/: 80 seeded changes with per-check results.',
     }
     with open(os.path.join(ROOT, 'MANIFEST.json'), 'w') as f:
